@@ -34,6 +34,7 @@ import LinVerif.Lemmas.C11Groups
 import LinVerif.Lemmas.C11Sorted
 import LinVerif.Lemmas.C11Sources
 import LinVerif.Lemmas.C11Block
+import LinVerif.Lemmas.C11BlockRT
 import LinVerif.Generated.C11
 import LinVerif.Driver.C11
 
@@ -1198,6 +1199,89 @@ theorem block_series_entry_roundtrip (e : Enc) (hu : ∀ n, 0 < e.uvarLen n) (nf
   intro w1 w2
   simp only [w1, w2, h2]
   exact this
+
+open LinVerif.BlockLayout LinVerif.Lemmas.C11Block LinVerif.Lemmas.C11BlockRT in
+/-- WHOLE-BLOCK ROUND TRIP (round 9; the bucket / high-key level, full strength). For ANY metric
+block — any number of fields, any strictly ascending series ids (the flusher is driven in bitmap
+order) over ANY number of roaring containers, any data lengths, series without any `FlushField`
+call in between, any codec lengths (uvarint non-empty, a non-empty offset list encodes to a
+non-empty block) — every field block of every series with data is recorded as written
+(`PrepareMetric`, all `FlushSeries`, the bucket footer of `CommitMetric`) and is found again by
+`metricReader.Load` → `metricLoader.Load` → `readSeriesData` (container index, high-key offsets,
+position word, low-key offsets, entry, field offsets) exactly where it was written. `none` only for
+a series whose field data are ALL empty (a multi-field entry without data: `fieldOffsetsAt <= 0`; a
+one-field bucket without a single byte gets no footer and is skipped) — nothing is lost.
+Proof: invariant `J` (`Lemmas/C11BlockRT.lean`): completed buckets carry read certificates that are
+stable because the tables are append-only, the open bucket's low-key offsets are the prefix sums of
+its entry lengths from `Level3.startAt`; closing a bucket turns the latter into the former. -/
+theorem block_roundtrip (e : Enc) (hu : ∀ n, 0 < e.uvarLen n) (ho : ∀ xs, xs ≠ [] → 0 < e.offLen xs)
+    (nf : Nat) (hnf : 1 ≤ nf) (series : List (Nat × List Nat))
+    (hasc : series.Pairwise (fun a b => a.1 < b.1))
+    (hlen : ∀ s, s ∈ series → s.2 = [] ∨ s.2.length = nf)
+    (s : Nat × List Nat) (hs : s ∈ series) (hdata : s.2 ≠ []) (k : Nat) (hk : k < nf) :
+    (∃ a, written (flushBlock ⟨true⟩ e nf series) s.1 k = some (a + sumL (s.2.take k), s.2.getD k 0)) ∧
+    (readField (flushBlock ⟨true⟩ e nf series) s.1 k = written (flushBlock ⟨true⟩ e nf series) s.1 k ∨
+     (readField (flushBlock ⟨true⟩ e nf series) s.1 k = none ∧ sumL s.2 = 0)) :=
+  block_roundtrip_core e hu ho nf hnf series hasc hlen s hs hdata k hk
+
+open LinVerif.BlockLayout LinVerif.Lemmas.C11Block LinVerif.Lemmas.C11BlockRT in
+/-- a series with at least one data byte is read back, every field, where it was written. -/
+theorem block_roundtrip_data (e : Enc) (hu : ∀ n, 0 < e.uvarLen n) (ho : ∀ xs, xs ≠ [] → 0 < e.offLen xs)
+    (nf : Nat) (hnf : 1 ≤ nf) (series : List (Nat × List Nat))
+    (hasc : series.Pairwise (fun a b => a.1 < b.1))
+    (hlen : ∀ s, s ∈ series → s.2 = [] ∨ s.2.length = nf)
+    (s : Nat × List Nat) (hs : s ∈ series) (hdata : 0 < sumL s.2) (k : Nat) (hk : k < nf) :
+    ∃ a, readField (flushBlock ⟨true⟩ e nf series) s.1 k = some (a + sumL (s.2.take k), s.2.getD k 0) := by
+  have hne : s.2 ≠ [] := by
+    intro h; rw [h] at hdata; simp [sumL] at hdata
+  obtain ⟨⟨a, ha⟩, h | h⟩ := block_roundtrip e hu ho nf hnf series hasc hlen s hs hne k hk
+  · exact ⟨a, by rw [h, ha]⟩
+  · omega
+
+open LinVerif.BlockLayout LinVerif.Lemmas.C11Block LinVerif.Lemmas.C11BlockRT in
+/-- the executable check the driver prints for op `blk` (and the harness compares with the real
+flusher / reader) never reports a lost series: `lostSeries` is empty for EVERY block. -/
+theorem block_no_lost_series (e : Enc) (hu : ∀ n, 0 < e.uvarLen n) (ho : ∀ xs, xs ≠ [] → 0 < e.offLen xs)
+    (nf : Nat) (hnf : 1 ≤ nf) (series : List (Nat × List Nat))
+    (hasc : series.Pairwise (fun a b => a.1 < b.1))
+    (hlen : ∀ s, s ∈ series → s.2 = [] ∨ s.2.length = nf) :
+    lostSeries ⟨true⟩ e nf series = [] := by
+  unfold lostSeries
+  simp only [List.map_eq_nil_iff, List.filter_eq_nil_iff]
+  intro s hs
+  by_cases hne : s.2 = []
+  · simp [hne]
+  · have hl : s.2.length = nf := by
+      rcases hlen s hs with h | h
+      · exact absurd h hne
+      · exact h
+    have hok : seriesOK (flushBlock ⟨true⟩ e nf series) s = true := by
+      unfold seriesOK
+      rw [List.all_eq_true]
+      intro k hkm
+      have hk : k < nf := by rw [← hl]; simpa using hkm
+      obtain ⟨⟨a, ha⟩, h | ⟨h, hz⟩⟩ := block_roundtrip e hu ho nf hnf series hasc hlen s hs hne k hk
+      · rw [h, ha]; simp
+      · rw [h, ha]
+        have hall : ∀ (xs : List Nat), sumL xs = 0 → ∀ y, y ∈ xs → y = 0 := by
+          intro xs
+          induction xs with
+          | nil => simp
+          | cons x xs ih =>
+            intro h0 y hy
+            simp [sumL] at h0
+            rcases List.mem_cons.mp hy with h1 | h1
+            · omega
+            · exact ih (by omega) y h1
+        have hk' : k < s.2.length := by omega
+        have hget : s.2.getD k 0 = 0 := by
+          simp [List.getD_eq_getElem?_getD, hk']
+          exact hall s.2 hz _ (List.getElem_mem hk')
+        simp only [hget]
+        simp
+        intro y hy
+        exact hall s.2 hz y hy
+    simp [hok]
 
 open LinVerif.BlockLayout LinVerif.Lemmas.C11Block in
 /-- non-vacuity + the whole block, executable: five series in three containers (65535 | 65536,
